@@ -20,8 +20,10 @@ pattern + event indicator / other ages, extreme values, other latent values).  F
 Relations (oracles)
   R1 others changed   outputs of the untouched members are bit-identical (rounding tolerance only when the
                       modification changes the padded shape of the cohort tensors).
-  R2 permutation      per-individual outputs follow the individual bit-identically (same shapes, same operations);
-                      totals within the summation tolerance; result containers are keyed in the dataset order.
+  R2 permutation      per-individual outputs follow the individual bit-identically (same shapes, same operations;
+                      rounding tolerance for mean_posterior, whose mean over the kept iterations is accumulated by torch
+                      in a position-dependent pattern); totals within the summation tolerance; result containers are
+                      keyed in the dataset order.
   R3 alone vs batch   per-individual outputs within a rounding tolerance derived from the sums involved (bit-identical
                       for scipy_minimize, which the implementation runs on one single-individual dataset per subject).
   T  totals           nll_attach == sum_i nll_attach_ind, nll_regul_<v> == sum_i nll_regul_<v>_ind,
@@ -122,12 +124,14 @@ def bounds(tier):
         return {"terms": "all 85 ordered cohorts of size <= 3 of 5 individuals x 3 modifications of the complement of every focal member, all 12 model kinds",
                 "sampler": "ordered cohorts <= 3 of 4 individuals, same modifications, %d model kinds, 2 scripts of draws" % len(QUICK_SAMPLER_MODELS),
                 "mcmc": "mode/mean posterior, ordered cohorts <= 3 of 4, %d model kinds, 1 script" % len(QUICK_MCMC_MODELS),
-                "scipy": "ordered cohorts <= 2 of 4 individuals, %d model kinds, start points by individual + seeded" % len(QUICK_SCIPY_MODELS),
+                "scipy": "ordered cohorts <= 2 of 4 individuals, %d model kinds, start points by individual + plain seeded call (non-joint)" % len(QUICK_SCIPY_MODELS),
                 "n_jobs": "{1, 2} on ordered cohorts <= 2 of 3 individuals + one cohort of 3, %d model kind" % len(QUICK_NJOBS_MODELS)}
     return {"terms/sampler": "all 85 ordered cohorts of size <= 3 of 5 individuals, every non-empty proper subset x 3 modifications, all 12 model "
                              "kinds, sampler scripts {0, 1, 2, seed}",
-            "mcmc": "mode/mean posterior, same cohorts and modifications, all 12 model kinds, scripts {0, seed or 2}",
-            "scipy": "ordered cohorts <= 3 of 5 individuals (cohorts of 3: complements of every focal member), %d model kinds" % len(THOROUGH_SCIPY_MODELS),
+            "mcmc": "mode/mean posterior, same cohorts and modifications, all 12 model kinds with script 0, %d of them also with script (seed or 2)"
+                    % len(QUICK_MCMC_MODELS),
+            "scipy": "ordered cohorts <= 3 of 5 individuals (cohorts of 3: complements of every focal member), %d model kinds, start points by individual; "
+                     "plain seeded call on cohorts of 2 (non-joint) and, for the first kind, of 3" % len(THOROUGH_SCIPY_MODELS),
             "n_jobs": "{1, 2, 3} on ordered cohorts <= 2 of 4 individuals + 8 cohorts of 3, %d model kinds" % len(THOROUGH_NJOBS_MODELS)}
 
 
@@ -640,6 +644,10 @@ def check_case(runner, ids, mods):
                 # the start point of the k-th optimisation is the k-th draw of the seeded generator: another optimisation
                 versus(sorted(ids), {}, "differs between two orders of the same cohort beyond the optimiser tolerance", ids, False,
                        opt_std=runner.prior_std())
+            elif part == "mcmc" and kw.get("algo") == "mean_posterior":
+                # torch's mean over the kept iterations accumulates differently at different positions of the
+                # (iterations, individuals, dims) tensor (x.mean(0)[perm] != x[:, perm].mean(0) in the last bit): rounding only
+                versus(sorted(ids), {}, "differs between two orders of the same cohort beyond rounding", ids, False)
             else:
                 versus(sorted(ids), {}, "differs between two orders of the same cohort", ids, True)
             other = runner.run(sorted(ids), {})
@@ -769,7 +777,7 @@ def shards(tier, seed):
                         "tier": tier})
     for m in (ALL_MODELS if thorough else QUICK_MCMC_MODELS):
         for algo in ("mode_posterior", "mean_posterior"):
-            for s in (scripts[:1] + scripts[-1:] if thorough else scripts[-1:]):
+            for s in ((scripts[:1] + scripts[-1:] if m in QUICK_MCMC_MODELS else scripts[:1]) if thorough else scripts[-1:]):
                 out.append({"part": "mcmc", "model": m, "algo": algo, "pool": IDS if thorough else IDS[:4], "kmax": 3, "script": s,
                             "subsets": "every" if thorough else "all-others", "tier": tier})
     # scipy_minimize: one shard per unordered cohort (its orders, its modifications, its singletons)
@@ -779,8 +787,8 @@ def shards(tier, seed):
         for k in range(2, kmax + 1):
             for comb in itertools.combinations(pool, k):
                 for draws in ("by-id", "seeded"):
-                    if k == 3 and draws == "seeded" and m != THOROUGH_SCIPY_MODELS[0]:
-                        continue
+                    if draws == "seeded" and (MODEL_SPECS[m]["kind"] == "joint" or (k == 3 and m != THOROUGH_SCIPY_MODELS[0])):
+                        continue  # the joint model starts from the data, without any draw: its seeded pass is the by-id pass
                     out.append({"part": "scipy", "model": m, "members": list(comb), "draws": draws, "subsets": "all-others",
                                 "script": 0 if draws == "by-id" else int(seed), "tier": tier})
     for m in (THOROUGH_NJOBS_MODELS if thorough else QUICK_NJOBS_MODELS):
